@@ -212,17 +212,21 @@ def strategyFloor : SearchKind → Nat
   | .ga => 10
   | _ => 0
 
-/-- after tuning every parameter the user left open has a value -/
+/-- after tuning every parameter the user left open has a value
+    (`code_length = 1` is rejected by `is_valid` already before tuning) -/
 theorem tune_defined (laws : ProbLaws P) (kind : SearchKind) (lnF cubeF : Nat → Nat)
-    (hln : ∀ n, 8 < n → lnF n ≠ 0) (esLayers : Nat) (hL : esLayers ≠ 0) (term0 dsize : Nat) (u : Env P) :
+    (hln : ∀ n, 8 < n → lnF n ≠ 0) (esLayers : Nat) (hL : esLayers ≠ 0) (term0 dsize : Nat) (u : Env P)
+    (hu : u.codeLength ≠ 1) :
     Defined (tune kind lnF cubeF esLayers term0 dsize u) := by
+  have hc : 2 ≤ (Env.dflt esLayers : Env P).codeLength := by simp [Env.dflt]
   cases kind
-  · exact tuneBase_defined _ (dflt_defined laws _ hL) _ _
-  · exact tuneSrc_defined _ _ hln _ (dflt_defined laws _ hL) _ _ _
-  · exact tuneGa_defined _ (dflt_defined laws _ hL) _ _
+  · exact tuneBase_defined _ (dflt_defined laws _ hL) hc _ _ hu
+  · exact tuneSrc_defined _ _ hln _ (dflt_defined laws _ hL) hc _ _ _ hu
+  · exact tuneGa_defined _ (dflt_defined laws _ hL) hc _ _ hu
 
 /-- the user's own settings are kept (apart from the strategy-imposed minimum on
-    `min_individuals`: 10 for GA/DE), the parameters outside the tuning are untouched -/
+    `min_individuals`: 10 for GA/DE, capped by the population size), the parameters outside the
+    tuning are untouched -/
 theorem tune_keeps_user (kind : SearchKind) (lnF cubeF : Nat → Nat) (esLayers term0 dsize : Nat)
     (u : Env P) : Keeps (strategyFloor kind) u (tune kind lnF cubeF esLayers term0 dsize u) := by
   cases kind
@@ -234,6 +238,7 @@ theorem tune_keeps_user (kind : SearchKind) (lnF cubeF : Nat → Nat) (esLayers 
 def TuneValidFull (P : Type) [ProbOps P] (kind : SearchKind) : Prop :=
   ∀ (lnF cubeF : Nat → Nat) (esLayers term0 dsize : Nat) (u : Env P),
     (∀ n, 8 < n → lnF n ≠ 0) → esLayers ≠ 0 → isValid false u = true → Untuned u →
+    u.individuals ≠ 1 →
     isValid true (tune kind lnF cubeF esLayers term0 dsize u) = true
 
 /-- proved part: the tuned environment passes `is_valid(true)` as soon as the cross-field
@@ -241,38 +246,45 @@ def TuneValidFull (P : Type) [ProbOps P] (kind : SearchKind) : Prop :=
     contradict the parameters the user did set). -/
 theorem tune_valid_partial (laws : ProbLaws P) (kind : SearchKind) (lnF cubeF : Nat → Nat)
     (hln : ∀ n, 8 < n → lnF n ≠ 0) (esLayers : Nat) (hL : esLayers ≠ 0) (term0 dsize : Nat) (u : Env P)
-    (hv : isValid false u = true) (hu : Untuned u)
+    (hv : isValid false u = true) (hu : Untuned u) (hpop : u.individuals ≠ 1)
     (hc : Cross (tune kind lnF cubeF esLayers term0 dsize u)) :
     isValid true (tune kind lnF cubeF esLayers term0 dsize u) = true := by
   cases kind
   · exact tuneBase_valid laws _ hL _ _ hv hu hc
   · exact tuneSrc_valid laws _ _ hln _ hL _ _ _ hv hu hc
-  · exact tuneGa_valid laws _ hL _ _ hv hu hc
+  · exact tuneGa_valid laws _ hL _ _ hv hu hpop hc
 
 /-- and only then: `is_valid(true)` after tuning is *equivalent* to the cross-field checks -/
 theorem tune_valid_iff (laws : ProbLaws P) (kind : SearchKind) (lnF cubeF : Nat → Nat)
     (hln : ∀ n, 8 < n → lnF n ≠ 0) (esLayers : Nat) (hL : esLayers ≠ 0) (term0 dsize : Nat) (u : Env P)
-    (hv : isValid false u = true) (hu : Untuned u) :
+    (hv : isValid false u = true) (hu : Untuned u) (hpop : u.individuals ≠ 1) :
     isValid true (tune kind lnF cubeF esLayers term0 dsize u) = true ↔
       Cross (tune kind lnF cubeF esLayers term0 dsize u) :=
   ⟨fun h => ((isValid_iff _ _).mp h).2.2,
-   tune_valid_partial laws kind lnF cubeF hln esLayers hL term0 dsize u hv hu⟩
+   tune_valid_partial laws kind lnF cubeF hln esLayers hL term0 dsize u hv hu hpop⟩
 
 /-- the user only fixes the population size -/
 def onlyIndividuals (n : Nat) : Env Int := { (Env.blank : Env Int) with individuals := n }
 
 /-- the full clause is FALSE for the code as it is: `individuals = 4`, everything else open, is a
-    consistent request; `search`/`src_search` fill `tournament_size = 5 > 4`, the GA/DE search
-    additionally forces `min_individuals = 10 > 4`; `is_valid(true)` rejects both results. -/
+    consistent request; every search class fills `tournament_size = 5 > 4` and `is_valid(true)`
+    rejects the result (before fix a334a4f the GA/DE search also forced `min_individuals = 10 > 4`). -/
 theorem tune_valid_full_counterexample (kind : SearchKind) : ¬ TuneValidFull Int kind := by
   intro h
   have := h (fun _ => 2) (fun _ => 31) 1 2 1 (onlyIndividuals 4) (fun _ _ => by decide) (by decide)
-    (by decide) ⟨by decide, by decide, by decide⟩
+    (by decide) ⟨by decide, by decide, by decide⟩ (by decide)
   cases kind <;> revert this <;> decide
 
-/-- non-vacuity of `tune_valid_partial`: with `individuals = 20` all three searches end valid -/
+/-- non-vacuity of `tune_valid_partial`: with `individuals = 20` (or 5) all three searches end valid;
+    many terminals no longer push `patch_length` to `code_length` (fix a44e556) -/
 example (kind : SearchKind) :
     isValid true (tune kind (fun _ => 2) (fun _ => 31) 1 2 1 (onlyIndividuals 20)) = true := by
+  cases kind <;> decide
+example (kind : SearchKind) :
+    isValid true (tune kind (fun _ => 2) (fun _ => 31) 1 2 1 (onlyIndividuals 5)) = true := by
+  cases kind <;> decide
+example (kind : SearchKind) :
+    isValid true (tune kind (fun _ => 2) (fun _ => 31) 1 400 12 (Env.blank : Env Int)) = true := by
   cases kind <;> decide
 
 end tune
